@@ -130,7 +130,9 @@ fn reach_matrix<const P: usize, const R: usize>(f: &Flat<P>) -> [[bool; R]; R] {
 
 macro_rules! c17_shape {
     ($path:ident, $min:ident, $max:ident, $term:ident, $r:expr, $t:expr, $up:expr, $rule:expr, $len:expr, $unwind:expr) => {
-        /// has_path(from, to) == reachability through productions, for a symbolic `from` and all `to`.
+        /// has_path(from, to) == reachability through productions, for every pair of rules (the
+        /// indices passed to the real function are concrete; the closed-set oracle is evaluated for a
+        /// symbolic row).
         #[kani::proof]
         #[kani::unwind($unwind)]
         pub fn $path() {
@@ -138,16 +140,33 @@ macro_rules! c17_shape {
             const P: usize = $up + 1;
             let g = any_grammar::<{ $up }>($rule, $len, R, $t);
             let f = flatten::<P>(&g);
-            let from: u8 = kani::any();
-            kani::assume((from as usize) < R);
-            let mut r = [false; R];
-            let mut to = 0;
-            while to < R {
-                r[to] = g.has_path(RIdx(from), RIdx(to as u8));
-                to += 1;
+            let mut all = [[false; R]; R];
+            let mut fr = 0;
+            while fr < R {
+                let mut to = 0;
+                while to < R {
+                    all[fr][to] = g.has_path(RIdx(fr as u8), RIdx(to as u8));
+                    to += 1;
+                }
+                fr += 1;
             }
-            // (a) the result is closed under "mentioned in a production of `from` or of a member";
+            // agreement with the independent transitive closure, every pair
+            let m = reach_matrix::<P, R>(&f);
+            let mut fr = 0;
+            while fr < R {
+                let mut to = 0;
+                while to < R {
+                    assert!(all[fr][to] == m[fr][to], "has_path == transitive closure of 'mentions'");
+                    to += 1;
+                }
+                fr += 1;
+            }
+            // least-fixed-point characterisation for a symbolic row `from`:
+            // (a) the row is closed under "mentioned in a production of `from` or of a member";
             // (b) it is contained in every closed set X (X a free vector).
+            let from: usize = kani::any();
+            kani::assume(from < R);
+            let r = all[from];
             let x: [bool; R] = kani::any();
             let mut r_closed = true;
             let mut x_closed = true;
@@ -158,10 +177,10 @@ macro_rules! c17_shape {
                 while k < MAXL {
                     if k < f.len[p] && f.is_rule[p][k] {
                         let b = f.idx[p][k];
-                        if (a == from as usize || r[a]) && !r[b] {
+                        if (a == from || r[a]) && !r[b] {
                             r_closed = false;
                         }
-                        if (a == from as usize || x[a]) && !x[b] {
+                        if (a == from || x[a]) && !x[b] {
                             x_closed = false;
                         }
                     }
@@ -177,14 +196,7 @@ macro_rules! c17_shape {
                     to += 1;
                 }
             }
-            // agreement with the independent transitive closure
-            let m = reach_matrix::<P, R>(&f);
-            let mut to = 0;
-            while to < R {
-                assert!(r[to] == m[from as usize][to], "has_path == transitive closure of 'mentions'");
-                to += 1;
-            }
-            kani::cover!(from >= 1 && r[from as usize], "opt: a recursive user rule");
+            kani::cover!(from >= 1 && r[from], "opt: a recursive user rule");
             kani::cover!(from == 0 && !r[R - 1], "a rule unreachable from the start rule");
             kani::cover!(true, "end of harness reached");
             std::mem::forget(g);
@@ -311,12 +323,14 @@ macro_rules! c17_shape {
                 t += 1;
             }
             let sg = g.sentence_generator(|t| costs[usize::from(t)]);
-            let a: u8 = kani::any();
-            kani::assume((a as usize) < R);
-            let mn = sg.min_sentence_cost(RIdx(a));
-            let mx = sg.max_sentence_cost(RIdx(a));
-            if let Some(mx) = mx {
-                assert!(mn <= mx, "minimum cost <= maximum cost");
+            let mut a = 0;
+            while a < R {
+                let mn = sg.min_sentence_cost(RIdx(a as u8));
+                let mx = sg.max_sentence_cost(RIdx(a as u8));
+                if let Some(mx) = mx {
+                    assert!(mn <= mx, "minimum cost <= maximum cost");
+                }
+                a += 1;
             }
             kani::cover!(true, "end of harness reached");
             std::mem::forget(sg);
@@ -407,5 +421,203 @@ macro_rules! c17_shape {
         }
     };
 }
+
+
+/// FIRST / nullable (and FOLLOW when `$follow`) are the least model of the textbook Horn system:
+///   A -> alpha, alpha_1..alpha_{i-1} nullable, alpha_i = token t      =>  t in FIRST(A)
+///   A -> alpha, alpha_1..alpha_{i-1} nullable, alpha_i = rule B       =>  FIRST(B) subseteq FIRST(A)
+///   A -> alpha, all of alpha nullable rules (alpha may be empty)      =>  A nullable
+///   EOF in FOLLOW(start rule)
+///   A -> alpha B beta, beta_1..beta_{j-1} nullable, beta_j = token t  =>  t in FOLLOW(B)
+///   A -> alpha B beta, beta_1..beta_{j-1} nullable, beta_j = rule C   =>  FIRST(C) subseteq FOLLOW(B)
+///   A -> alpha B beta, all of beta nullable                           =>  FOLLOW(A) subseteq FOLLOW(B)
+/// `model` evaluates "is (n, f, w) closed under these rules".
+fn ff_model<const P: usize, const R: usize, const T: usize>(
+    fl: &Flat<P>,
+    n: &[bool; R],
+    f: &[[bool; T]; R],
+    w: &[[bool; T]; R],
+    follow: bool,
+) -> bool {
+    let mut ok = true;
+    if follow && !w[0][T - 1] {
+        ok = false;
+    }
+    let mut p = 0;
+    while p < P {
+        let a = fl.rule[p];
+        // FIRST / nullable
+        let mut prefix_nullable = true;
+        let mut k = 0;
+        while k < MAXL {
+            if k < fl.len[p] && prefix_nullable {
+                if fl.is_rule[p][k] {
+                    let b = fl.idx[p][k];
+                    let mut t = 0;
+                    while t < T {
+                        if f[b][t] && !f[a][t] {
+                            ok = false;
+                        }
+                        t += 1;
+                    }
+                    if !n[b] {
+                        prefix_nullable = false;
+                    }
+                } else {
+                    if !f[a][fl.idx[p][k]] {
+                        ok = false;
+                    }
+                    prefix_nullable = false;
+                }
+            }
+            k += 1;
+        }
+        if prefix_nullable && !n[a] {
+            ok = false;
+        }
+        // FOLLOW
+        if follow {
+            let mut i = 0;
+            while i < MAXL {
+                if i < fl.len[p] && fl.is_rule[p][i] {
+                    let b = fl.idx[p][i];
+                    let mut rest_nullable = true;
+                    let mut j = i + 1;
+                    while j < MAXL {
+                        if j < fl.len[p] && rest_nullable {
+                            if fl.is_rule[p][j] {
+                                let c = fl.idx[p][j];
+                                let mut t = 0;
+                                while t < T {
+                                    if f[c][t] && !w[b][t] {
+                                        ok = false;
+                                    }
+                                    t += 1;
+                                }
+                                if !n[c] {
+                                    rest_nullable = false;
+                                }
+                            } else {
+                                if !w[b][fl.idx[p][j]] {
+                                    ok = false;
+                                }
+                                rest_nullable = false;
+                            }
+                        }
+                        j += 1;
+                    }
+                    if rest_nullable {
+                        let mut t = 0;
+                        while t < T {
+                            if w[a][t] && !w[b][t] {
+                                ok = false;
+                            }
+                            t += 1;
+                        }
+                    }
+                }
+                i += 1;
+            }
+        }
+        p += 1;
+    }
+    ok
+}
+
+macro_rules! c17_ff {
+    ($first:ident, $follow:ident, $r:expr, $t:expr, $up:expr, $rule:expr, $len:expr, $unwind:expr) => {
+        #[kani::proof]
+        #[kani::unwind($unwind)]
+        pub fn $first() {
+            const R: usize = $r;
+            const T: usize = $t;
+            const P: usize = $up + 1;
+            let g = any_grammar::<{ $up }>($rule, $len, R, T);
+            let fl = flatten::<P>(&g);
+            let fs = g.firsts();
+            let mut n = [false; R];
+            let mut f = [[false; T]; R];
+            let mut a = 0;
+            while a < R {
+                n[a] = fs.is_epsilon_set(RIdx(a as u8));
+                let mut t = 0;
+                while t < T {
+                    f[a][t] = fs.is_set(RIdx(a as u8), TIdx(t as u8));
+                    t += 1;
+                }
+                a += 1;
+            }
+            let w = [[false; T]; R];
+            assert!(ff_model::<P, R, T>(&fl, &n, &f, &w, false), "FIRST/nullable: closed under the derivation rules (nothing missing)");
+            let xn: [bool; R] = kani::any();
+            let xf: [[bool; T]; R] = kani::any();
+            if ff_model::<P, R, T>(&fl, &xn, &xf, &w, false) {
+                let mut a = 0;
+                while a < R {
+                    assert!(!n[a] || xn[a], "nullable: nothing extra");
+                    let mut t = 0;
+                    while t < T {
+                        assert!(!f[a][t] || xf[a][t], "FIRST: nothing extra");
+                        t += 1;
+                    }
+                    a += 1;
+                }
+            }
+            kani::cover!(n[1] && f[1][0], "opt: nullable start rule with a token in FIRST");
+            kani::cover!(true, "end of harness reached");
+            std::mem::forget(fs);
+            std::mem::forget(g);
+        }
+
+        #[kani::proof]
+        #[kani::unwind($unwind)]
+        pub fn $follow() {
+            const R: usize = $r;
+            const T: usize = $t;
+            const P: usize = $up + 1;
+            let g = any_grammar::<{ $up }>($rule, $len, R, T);
+            let fl = flatten::<P>(&g);
+            let fs = g.firsts();
+            let fo = g.follows();
+            let mut n = [false; R];
+            let mut f = [[false; T]; R];
+            let mut w = [[false; T]; R];
+            let mut a = 0;
+            while a < R {
+                n[a] = fs.is_epsilon_set(RIdx(a as u8));
+                let mut t = 0;
+                while t < T {
+                    f[a][t] = fs.is_set(RIdx(a as u8), TIdx(t as u8));
+                    w[a][t] = fo.is_set(RIdx(a as u8), TIdx(t as u8));
+                    t += 1;
+                }
+                a += 1;
+            }
+            assert!(ff_model::<P, R, T>(&fl, &n, &f, &w, true), "FOLLOW: closed under the derivation rules (nothing missing)");
+            let xn: [bool; R] = kani::any();
+            let xf: [[bool; T]; R] = kani::any();
+            let xw: [[bool; T]; R] = kani::any();
+            if ff_model::<P, R, T>(&fl, &xn, &xf, &xw, true) {
+                let mut a = 0;
+                while a < R {
+                    let mut t = 0;
+                    while t < T {
+                        assert!(!w[a][t] || xw[a][t], "FOLLOW: nothing extra");
+                        t += 1;
+                    }
+                    a += 1;
+                }
+            }
+            kani::cover!(true, "end of harness reached");
+            std::mem::forget(fo);
+            std::mem::forget(fs);
+            std::mem::forget(g);
+        }
+    };
+}
+c17_ff!(c17_first_a2_b2, c17_follow_a2_b2, 3, 3, 2, [1, 2], [2, 2], 6);
+c17_ff!(c17_first_a3_b0, c17_follow_a3_b0, 3, 3, 2, [1, 2], [3, 0], 6);
+c17_ff!(c17_first_a2_b1_c0, c17_follow_a2_b1_c0, 4, 3, 3, [1, 2, 3], [2, 1, 0], 6);
+c17_ff!(c17_first_a21_b0, c17_follow_a21_b0, 3, 3, 3, [1, 1, 2], [2, 1, 0], 6);
 
 include!("c17_shapes.rs");
